@@ -1279,6 +1279,10 @@ class System:
         visit_idx = 0
 
         while True:
+            # nothing left to search if every remaining bus is isolated
+            if starting_bus >= n:
+                break
+
             if starting_bus in self.Bus.islanded_buses:
                 starting_bus += 1
                 continue
